@@ -153,5 +153,70 @@ def run(workdir, log=None):
     json.dump({"key": key, "result": res}, open(cache, "w"))
     return res
 
+# ---------------------------------------------------------------- state shape
+# Every place where the library can remember something between two calls that take `&self`: fields with interior
+# mutability, statics, thread-locals, unsafe blocks. The model's `ctx` record (coq/Process.v) claims to be ALL the
+# state there is; each holder found in the source must be one the model knows, mapped to a field of that record.
+MODELLED_STATE = {
+    "smbus.rs:MCTPSMBusContext.vendor_id_selector:Cell<u8>": "c_selector",
+    "smbus_request.rs:MCTPSMBusContextRequest.eid:Cell<u8>": "c_eid_req",
+    "smbus_response.rs:MCTPSMBusContextResponse.eid:Cell<u8>": "c_eid_resp",
+}
+_INTERIOR = re.compile(r"\b(Cell|RefCell|UnsafeCell|OnceCell|OnceLock|LazyCell|LazyLock|Lazy|Mutex|RwLock|Atomic\w+)\b|\*mut\b")
+
+def _non_test(text):
+    i = text.find("#[cfg(test)]")
+    return strip_comments(text if i < 0 else text[:i])
+
+def state_shape():
+    """returns {"holders": [...], "unmodelled": [...], "gone": [...], "model_fields_missing": [...]}"""
+    holders = []
+    for f in sorted(os.listdir(SRC)):
+        if not f.endswith(".rs"): continue
+        s = _non_test(open(os.path.join(SRC, f)).read())
+        for m in re.finditer(r"\bstruct\s+(\w+)\s*(?:<[^>{]*>)?\s*(?:where[^{]*)?\{(.*?)\n\}", s, re.S):
+            name, body = m.group(1), m.group(2)
+            for line in body.split("\n"):
+                fm = re.match(r"\s*(?:pub(?:\([^)]*\))?\s+)?(\w+)\s*:\s*(.+?),?\s*$", line)
+                if not fm: continue
+                ty = fm.group(2).replace(" ", "")
+                if _INTERIOR.search(ty): holders.append("%s:%s.%s:%s" % (f, name, fm.group(1), ty))
+        for m in re.finditer(r"^\s*(?:pub(?:\([^)]*\))?\s+)?static\s+(mut\s+)?(\w+)\s*:\s*([^=;]+)", s, re.M):
+            ty = m.group(3).strip().replace(" ", "")
+            if m.group(1) or _INTERIOR.search(ty): holders.append("%s:static %s:%s" % (f, m.group(2), ty))
+        for m in re.finditer(r"\bthread_local!", s): holders.append("%s:thread_local!" % f)
+        for k, m in enumerate(re.finditer(r"\bunsafe\b", s)): holders.append("%s:unsafe#%d" % (f, k))
+    rec = re.search(r"Record ctx := \{(.*?)\}\.", open(os.path.join(ROOT, "coq", "Process.v")).read(), re.S)
+    fields = re.findall(r"(\w+)\s*:", rec.group(1)) if rec else []
+    return {"holders": sorted(holders),
+            "unmodelled": sorted(h for h in holders if h not in MODELLED_STATE),
+            "gone": sorted(h for h in MODELLED_STATE if h not in holders),
+            "model_fields_missing": sorted(v for v in MODELLED_STATE.values() if v not in fields)}
+
+def fuzz_dict():
+    """libFuzzer dictionary harvested from /repo's current non-test sources"""
+    ents = []
+    for f in sorted(os.listdir(SRC)):
+        if not f.endswith(".rs"): continue
+        s = _non_test(open(os.path.join(SRC, f)).read())
+        lits = re.findall(r"(?<![\w.])(0x[0-9a-fA-F_]+|0b[01_]+|\d+)(?:u8|u16|u32|u64|usize)?(?![\w.])", s)
+        vals = []
+        for x in lits:
+            try: vals.append(int(x.replace("_", ""), 0))
+            except ValueError: pass
+        small = [v for v in vals if v <= 255]
+        for v in vals:
+            if v <= 0xFF: ents.append(bytes([v]))
+            elif v <= 0xFFFF: ents += [v.to_bytes(2, "big"), v.to_bytes(2, "little")]
+            elif v <= 0xFFFFFFFF: ents += [v.to_bytes(4, "big"), v.to_bytes(4, "little")]
+        for k in range(len(small) - 1): ents.append(bytes(small[k:k + 2]))
+        for k in range(len(small) - 2): ents.append(bytes(small[k:k + 3]))
+    seen, out = set(), []
+    for e in ents:
+        if e not in seen:
+            seen.add(e); out.append('"' + "".join("\\x%02x" % b for b in e) + '"')
+    return "\n".join(out) + "\n"
+
 if __name__ == "__main__":
+    print(json.dumps(state_shape(), indent=1))
     print(json.dumps(run(os.path.join(ROOT, "work")), indent=1))
